@@ -23,7 +23,8 @@ RULE = ("PTF1-4: random points of the domain (clay, silt, sand >= 5, sand <= 85,
         "outside; calcWRed: percent pairs as the three call sites hand them over; Hydro: every texture of both tables x "
         "density 1-5 x 7 Corg classes x 6 groundwater classes, values at / next to every threshold, and a sweep of Corg 0-7 % "
         "and level 0-45 dm per texture; whole runs of "
-        "generated projects (table, explicit and PTF routes; daily groundwater series with returns, sinusoid): first day and "
+        "generated projects (table, explicit and PTF routes; daily groundwater series with fast steps, exact returns and slow "
+        "drifts of 1e-4..0.02 dm per day across several layers; sinusoid): first day and "
         "sampled groundwater-update days; a case is non-trivial when its inputs are distinct")
 TRUSTED = ["binary64 semantics of Go on amd64 (no fused multiply-add) = Coq primitive floats",
            "math.Pow(x,2|3) = x*x, x*(x*x): not assumed, compared bit for bit on every PTF4 case",
@@ -192,13 +193,13 @@ def _trace(ctx):
     if "trace" in _cache:
         return _cache["trace"]
     ex = waterlib.prepare_examples(ctx, extreme_rain=False)
-    info = c15_projects.make_projects(ex, ctx.seed)
+    info = c15_projects.make_projects(ex, ctx.seed, ctx.thorough)
     lines = c15_projects.batch_lines(ctx.thorough, ctx.seed)
     lf = os.path.join(ctx.work, "c15_lines.txt")
     with open(lf, "w") as f:
         f.write("\n".join(l for l, _ in lines) + "\n")
     r = waterlib.run_harness(ctx, "c15", ["trace", "-work", ex, "-lines", lf, "-seed", str(ctx.seed),
-                                          "-cases", "400" if ctx.thorough else "40"], timeout=3000)
+                                          "-cases", "400" if ctx.thorough else "60"], timeout=3000)
     _cache["trace"] = (r, lines, info)
     return _cache["trace"]
 
@@ -316,6 +317,7 @@ def correspond(ctx):
     ctx.extra["traced_runs"] = len(runs)
     ctx.extra["traced_days"] = sum(r_["days"] for r_ in runs)
     ctx.extra["groundwater_changes_observed"] = sum(r_["gw_changes"] for r_ in runs)
+    ctx.extra["groundwater_changes_of_at_most_0.01_dm"] = sum(r_.get("gw_slow_changes", 0) for r_ in runs)
     ctx.extra["return_to_level_pairs_compared"] = sum(r_["return_pairs"] for r_ in runs)
     ctx.extra["ptf_grid_scan"] = [{k: v for k, v in x.items() if k != "k"} for x in cases if x["k"] == "ptfscan"]
     return c
